@@ -142,6 +142,11 @@ def generate(rnd, tier, scale):
                     # the float nearest to a path probability (usually not equal to it: 0.3 < 3/10)
                     pl = ["f", repr(pl[1] / pl[2])]
                 case["calls"] = [[0, 0, pl]]
+        if rnd.random() < 0.25:
+            # the same program through evaluation.foreach (one callable object for every function), and a second
+            # evaluation of the other function cut at depth 0: its own sentinel alone
+            case["via"] = "foreach"
+            case["calls"] = case["calls"] + [[len(fns) - 1, 0, ["i", 0]], [0, 0, ["i", 0]]]
         try:
             if E.run_reference(case) is None:
                 continue  # does not terminate under its limits
